@@ -57,14 +57,14 @@ template <class G> void run_c02(vf::Report& R) {
     // (checked in C13/C01; here only hat)
     ref::Mat H = vf::toLM(t.hat());
     ref::Mat Href = g.hat(tl);
-    ref::Real dh = (H.rows() == Href.rows()) ? (H - Href).cwiseAbs().maxCoeff() : 1;
+    ref::Real dh = (H.rows() == Href.rows()) ? vf::maxabs((H - Href)) : 1;
     if (!R.judge("hat_is_sum_generators", dh, 1e-300L, a.key))
       R.fail("hat_is_sum_generators", "hat/" + a.key, dh, 0, detail + "," + vf::kv("hat", vf::decmat(H)) + "}");
     // 5. routes: free function exp(t) and deprecated retract() agree bit for bit
     {
       G X2 = manif::exp(t);
       bool same = vf::bits_equal(X2.coeffs(), X.coeffs());
-      if (!R.judge("route_free_exp", same ? 0 : (ref::Real)(X2.coeffs() - X.coeffs()).cwiseAbs().maxCoeff() / lin, B::B1, a.key))
+      if (!R.judge("route_free_exp", same ? 0 : (ref::Real)vf::maxabs((X2.coeffs() - X.coeffs())) / lin, B::B1, a.key))
         R.fail("route_free_exp", "manif::exp/" + a.key, 1, B::B1, detail + "}");
       if (same) R.count("route_bit_identical");
     }
